@@ -35,6 +35,9 @@ func init() {
 			singleLockRegion(r)
 			lockPairing(r)
 			c07LockSections(r)
+			c09RelativeExpiryFromNow(r)
+			kvLookupCoversAllTables(r)
+			kvLookupVisitsEveryTable(r)
 		},
 	})
 }
